@@ -178,5 +178,261 @@ def r1_dirty_tracking(ctx):
     ctx.floor('C11.R1', 'mutating call sites on the clean client payload', by_enum[M + 'ClientState'], 3)
 
 
+STORE = 'pavex_session::store_::SessionStore::'
+SS, OPT, CID = M + 'ServerState', 'core::option::Option', M + 'CurrentSessionId'
+# the documented sync table: (store method, server-state cell, id cell). 'NotLoaded' = the OnceCell is empty.
+SYNC_TABLE = {
+    ('create', 'DoesNotExist', 'Existing|NewlyGenerated'),
+    ('change_id', 'NotLoaded', 'ToBeRenamed'),
+    ('update_ttl', 'Unchanged', 'Existing'),
+    ('change_id', 'Unchanged', 'ToBeRenamed'),
+    ('create', 'Unchanged', 'ToBeRenamed'),        # fallback when change_id reports UnknownId
+    ('create', 'Unchanged', 'NewlyGenerated'),
+    ('delete', 'MarkedForDeletion', '*'),
+    ('update', 'Changed', 'Existing'),
+    ('delete', 'Changed', 'ToBeRenamed'),
+    ('create', 'Changed', 'ToBeRenamed'),
+    ('create', 'Changed', 'NewlyGenerated'),
+}
+TOLERATED_ERR_VARIANTS = {'UnknownId'}
+
+
+def _sync_body(ctx):
+    bs = [b for b in ctx.fb.bodies_of_item(CR, M + 'Session::sync') if b.is_coroutine]
+    return bs[0] if len(bs) == 1 else None
+
+
+def r2_sync_table(ctx):
+    from ..tables import guard_context
+    ctx.rule('C11.R2', 'P5+P1: in Session::sync, the set of (store method, server-state variant, id variant) cells in which '
+             'a SessionStore method is called equals the documented table; in Changed x ToBeRenamed delete(old) dominates '
+             'create(new); the result of every store call reaches `?` or an explicit match on Result whose only tolerated '
+             'error variant is UnknownId.')
+    body = ctx.need('C11.R2', 'coroutine body of Session::sync', _sync_body(ctx))
+    if body is None:
+        return
+    cells = {}
+    sites = []
+    for bb, t in body.calls():
+        c = callee(t)
+        if not c or not c.startswith(STORE):
+            continue
+        meth = c[len(STORE):]
+        g = guard_context(body, bb)
+        st = g.get(SS)
+        if st is None:
+            o = g.get(OPT, set())
+            st = {'NotLoaded'} if o == {'None'} else {'?'}
+        idv = g.get(CID)
+        idc = '|'.join(sorted(idv)) if idv else '*'
+        cell = (meth, '|'.join(sorted(st)), idc)
+        cells.setdefault(cell, []).append(bb)
+        sites.append((bb, t, cell))
+    ctx.count('store_call_sites_in_sync', len(sites))
+    ctx.floor('C11.R2', 'SessionStore call sites in Session::sync', len(sites), 11)
+    for cell in sorted(set(cells) | SYNC_TABLE):
+        ok = cell in cells and cell in SYNC_TABLE
+        loc = body.loc(cells[cell][0]) if cell in cells else body.loc()
+        verdict = 'as documented' if ok else ('NOT in the documented sync table' if cell in cells else
+                                              'documented but no such call on any path of sync')
+        ctx.ob('C11.R2', 'cell|%s|%s|%s' % cell, ok, loc,
+               'store.%s in cell (state=%s, id=%s): %s' % (cell[0], cell[1], cell[2], verdict))
+    # ordering inside Changed x ToBeRenamed
+    d = cells.get(('delete', 'Changed', 'ToBeRenamed'))
+    c = cells.get(('create', 'Changed', 'ToBeRenamed'))
+    if d and c:
+        ctx.ob('C11.R2', 'order|Changed|ToBeRenamed|delete<create', body.dominates(d[0], c[0]), body.loc(c[0]),
+               'delete(old) dominates create(new) when a changed state moves to a new id')
+    # record / id provenance per cell
+    RECORD = {('create', 'DoesNotExist', 'Existing|NewlyGenerated'): 'empty', ('create', 'Unchanged', 'NewlyGenerated'): 'empty',
+              ('create', 'Unchanged', 'ToBeRenamed'): 'Unchanged.state', ('create', 'Changed', 'ToBeRenamed'): 'Changed.state',
+              ('create', 'Changed', 'NewlyGenerated'): 'Changed.state', ('update', 'Changed', 'Existing'): 'Changed.state'}
+    IDS = {('change_id', 'NotLoaded', 'ToBeRenamed'): ['old', 'new'], ('change_id', 'Unchanged', 'ToBeRenamed'): ['old', 'new'],
+           ('create', 'Unchanged', 'ToBeRenamed'): ['new'], ('delete', 'Changed', 'ToBeRenamed'): ['old'],
+           ('create', 'Changed', 'ToBeRenamed'): ['new']}
+    defs = Defs(body)
+
+    def reads_of(op):
+        pl = op_place(op)
+        if pl is None:
+            return set(), set()
+        sl, _ = backward_slice(body, pl['l'], defs)
+        rd = set()
+        for _, _, node in sl:
+            from ..flow import rv_operands
+            places = []
+            if 'rv' in node:
+                ops, pls = rv_operands(node['rv'])
+                places = pls + [op_place(o) for o in ops if op_place(o) is not None]
+            for q in places:
+                pp = q.get('p', [])
+                for i, el in enumerate(pp):
+                    if el.startswith('d:') and i + 1 < len(pp) and pp[i + 1].startswith('f:'):
+                        rd.add(el[2:] + '.' + pp[i + 1][2:])
+        return rd, {c for c, _, _ in slice_calls(sl)}
+
+    for bb, t, cell in sites:
+        if cell in RECORD and len(t['args']) >= 3:
+            rd, calls = reads_of(t['args'][2])
+            empty = 'pavex_session::store_::SessionRecordRef::empty' in calls
+            got = 'empty' if empty else ('|'.join(sorted(r for r in rd if r.endswith('.state'))) or '?')
+            ctx.ob('C11.R2', 'record|%s|%s|%s' % cell, got == RECORD[cell], body.loc(bb, t),
+                   'record written by store.%s in (state=%s,id=%s) is built from: %s (documented: %s)' % (cell + (got, RECORD[cell])))
+        if cell in IDS:
+            got = []
+            for a in t['args'][1:1 + len(IDS[cell])]:
+                rd, _ = reads_of(a)
+                got.append('|'.join(sorted(r.split('.')[1] for r in rd if r.startswith('ToBeRenamed.'))) or '?')
+            ctx.ob('C11.R2', 'ids|%s|%s|%s' % cell, got == IDS[cell], body.loc(bb, t),
+                   'id argument(s) of store.%s in (state=%s,id=%s) come from ToBeRenamed field(s) %s (documented: %s)' % (cell + (got, IDS[cell])))
+    # error discipline
+    for bb, t, cell in sites:
+        dest = t['dest']
+        derived = forward_derived(body, {dest['l']}, through_calls=True)
+        handled = None
+        tolerated = set()
+        for b2, t2 in body.calls():
+            if callee(t2) == 'core::ops::try_trait::Try::branch':
+                pl = op_place(t2['args'][0])
+                if pl is not None and pl['l'] in derived:
+                    handled = 'propagated with `?`'
+        for b2 in body.live_blocks():
+            t2 = body.term(b2)
+            if t2 and t2['k'] == 'switch' and 'enum' in t2 and t2['src']['l'] in derived:
+                e = strip_generics(t2['enum'])
+                if e == 'core::result::Result' and handled is None:
+                    handled = 'matched explicitly'
+                elif e.startswith('pavex_session::store_::errors::'):
+                    tolerated |= {n for n, _ in t2['ts']}
+        ok = handled is not None and tolerated <= TOLERATED_ERR_VARIANTS
+        ctx.ob('C11.R2', 'errors|%s|%s|%s' % cell, ok, body.loc(bb, t),
+               'result of store.%s: %s; explicitly distinguished error variants: %s' % (
+                   cell[0], handled or 'DROPPED (neither `?` nor a match on the Result)', sorted(tolerated) or 'none'))
+
+
+def r3_id_plumbing(ctx):
+    from ..tables import variant_table, enum_switches
+    ctx.rule('C11.R3', 'P5/P7: CurrentSessionId::new_id / old_id read the documented field per variant; the session id written '
+             'into the cookie value derives from new_id(); invalidate() sets the flag and marks the server state for '
+             'deletion; cycle_id() keeps the old id, draws the new one from SessionId::random() and compares it with the '
+             'old one before use.')
+    # (a) tables
+    want = {'new_id': {'Existing': 'f:0', 'ToBeRenamed': 'f:new', 'NewlyGenerated': 'f:0'},
+            'old_id': {'Existing': 'f:0', 'ToBeRenamed': 'f:old', 'NewlyGenerated': None}}
+    for fn, table in want.items():
+        b = ctx.need('C11.R3', 'CurrentSessionId::' + fn, ctx.fb.body(CR, M + 'CurrentSessionId::' + fn))
+        if b is None:
+            continue
+        sw = list(enum_switches(b, CID))
+        if not ctx.need('C11.R3', 'match on CurrentSessionId in ' + fn, sw):
+            continue
+        vt = variant_table(b, sw[0][0])
+        for var, field in table.items():
+            f = vt.get(var)
+            got = None
+            if f:
+                rd = [pl['p'][-1] for pl, _, _ in f['reads'] if ('d:' + var) in pl.get('p', [])]
+                got = rd[0] if rd else None
+                if field is None:
+                    got = None if any(v == 'None' for a, v, _, _ in f['aggs']) and not rd else (got or 'Some(?)')
+            ctx.ob('C11.R3', 'table|%s|%s' % (fn, var), got == field, b.loc(),
+                   '%s(%s) reads %s (documented: %s)' % (fn, var, got, field))
+    # (b) cookie id
+    fin = [b for b in ctx.fb.bodies_of_item(CR, M + 'Session::finalize') if b.is_coroutine]
+    fin = ctx.need('C11.R3', 'coroutine body of Session::finalize', fin[0] if len(fin) == 1 else None)
+    if fin is not None:
+        defs = Defs(fin)
+        found = 0
+        for bb, j, st in fin.all_assigns():
+            rv = st['rv']
+            if rv['k'] == 'agg' and rv.get('ak') == 'adt' and strip_generics(rv['adt']) == 'pavex_session::wire::WireClientState':
+                found += 1
+                i = rv['fields'].index('session_id')
+                pl = op_place(rv['ops'][i])
+                calls = set()
+                if pl is not None:
+                    sl, _ = backward_slice(fin, pl['l'], defs)
+                    calls = {c for c, _, _ in slice_calls(sl)}
+                ok = (M + 'CurrentSessionId::new_id') in calls and (M + 'CurrentSessionId::old_id') not in calls
+                ctx.ob('C11.R3', 'cookie-id|finalize', ok, fin.loc(bb, st),
+                       'WireClientState.session_id derives from %s' % sorted(c for c in calls if 'SessionId' in c))
+        ctx.floor('C11.R3', 'WireClientState constructions in finalize', found, 1)
+        # sync precedes cookie creation
+        syncs = [bb for bb, t in fin.calls() if callee(t) == M + 'Session::sync']
+        news = [bb for bb, t in fin.calls() if callee(t) in ('pavex::cookie::ResponseCookie::new', 'biscotti::response::ResponseCookie::new',
+                                                              'biscotti::response::cookie::ResponseCookie::new',
+                                                              'biscotti::RemovalCookie::new', 'biscotti::response::removal::RemovalCookie::new')
+                or (callee(t) or '').endswith('ResponseCookie::new') or (callee(t) or '').endswith('RemovalCookie::new')]
+        if ctx.need('C11.R3', 'call to Session::sync in finalize', syncs) and ctx.need('C11.R3', 'cookie constructors in finalize', news):
+            for nb in news:
+                ctx.ob('C11.R3', 'sync-before-cookie|%s' % callee(fin.term(nb)).split('::')[-2], fin.dominates(syncs[0], nb),
+                       fin.loc(nb), 'sync() (with `?`) dominates the construction of the cookie')
+    # (c) invalidate
+    inv = ctx.need('C11.R3', 'Session::invalidate', ctx.fb.body(CR, M + 'Session::invalidate'))
+    if inv is not None:
+        defs = Defs(inv)
+        flag = [bb for bb, t in inv.calls() if callee(t) == M + 'InvalidationFlag::invalidate']
+        dirty = _dirty_write_blocks(inv, defs, SS)
+        marked = [bb for bb, v in dirty.items() if v == ['MarkedForDeletion']]
+        rets = inv.return_blocks()
+        ok = bool(flag) and bool(marked) and all(inv.dominates(flag[0], r) and inv.dominates(marked[0], r) for r in rets)
+        ctx.ob('C11.R3', 'invalidate|flag+marked', ok, inv.loc(),
+               'invalidate() sets the invalidation flag (blocks %s) and writes MarkedForDeletion (blocks %s) on every path' % (flag, marked))
+    # (d) cycle_id
+    cyc = ctx.need('C11.R3', 'Session::cycle_id', ctx.fb.body(CR, M + 'Session::cycle_id'))
+    if cyc is not None:
+        defs = Defs(cyc)
+        rnd = [bb for bb, t in cyc.calls() if callee(t) == 'pavex_session::id::SessionId::random']
+        cmp_ = [bb for bb, t in cyc.calls() if callee(t) in ('core::cmp::PartialEq::ne', 'core::cmp::PartialEq::eq')
+                and 'SessionId' in t['aty'][0]]
+        writes = [(bb, st) for bb, j, st in cyc.all_assigns() if st.get('lty') and strip_generics(st['lty']) == CID]
+        ctx.need('C11.R3', 'assignment to Session.id in cycle_id', writes)
+        ctx.need('C11.R3', 'SessionId::random() in cycle_id', rnd)
+        for bb, st in writes:
+            ok = bool(cmp_) and any(cyc.dominates(c, bb) for c in cmp_) and bool(rnd) and cyc.dominates(rnd[0], bb)
+            ctx.ob('C11.R3', 'cycle_id|compared-before-use', ok, cyc.loc(bb, st),
+                   'the new id is drawn from SessionId::random() and compared (==/!=) with the old id on every path to the write of Session.id')
+        # aggregates: ToBeRenamed{old,new}: `new` from random(), `old` not from random()
+        for bb, j, st in cyc.all_assigns():
+            rv = st['rv']
+            if rv['k'] == 'agg' and rv.get('ak') == 'adt' and strip_generics(rv['adt']) == CID and rv['var'] == 'ToBeRenamed':
+                srcs = {}
+                for fname, o in zip(rv['fields'], rv['ops']):
+                    pl = op_place(o)
+                    sl, _ = backward_slice(cyc, pl['l'], defs) if pl is not None else ([], set())
+                    srcs[fname] = 'pavex_session::id::SessionId::random' in {c for c, _, _ in slice_calls(sl)}
+                ctx.ob('C11.R3', 'cycle_id|ToBeRenamed-fields', srcs.get('new') is True and srcs.get('old') is False, cyc.loc(bb, st),
+                       'ToBeRenamed{old,new}: new derives from random(): %s; old derives from random(): %s' % (srcs.get('new'), srcs.get('old')))
+
+
+def r4_only_sync_talks_to_store(ctx):
+    ctx.rule('C11.R4', 'P3 who-may-call: inside pavex_session, SessionStore::{create,update,update_ttl,delete,change_id} are '
+             'called only from Session::sync and SessionStore::load only from force_load; positive control: the query '
+             'matches the known sites.')
+    allowed = {'create': {M + 'Session::sync'}, 'update': {M + 'Session::sync'}, 'update_ttl': {M + 'Session::sync'},
+               'delete': {M + 'Session::sync'}, 'change_id': {M + 'Session::sync'}, 'load': {M + 'force_load'}}
+    n = 0
+    seen = set()
+    for b in ctx.fb.bodies(CR):
+        if b.is_promoted:
+            continue
+        for bb, t in b.calls():
+            c = callee(t)
+            if c and c.startswith(STORE):
+                meth = c[len(STORE):]
+                if meth in allowed:
+                    n += 1
+                    ok = b.nroot in allowed[meth]
+                    key = 'caller|%s|%s' % (meth, b.nroot.replace(M, ''))
+                    if key not in seen or not ok:
+                        seen.add(key)
+                        ctx.ob('C11.R4', key, ok, b.loc(bb, t), 'SessionStore::%s called from %s' % (meth, b.nroot), nontrivial=True)
+    ctx.count('store_call_sites', n)
+    ctx.floor('C11.R4', 'SessionStore call sites in pavex_session (positive control)', n, 12)
+
+
 def check(ctx):
     r1_dirty_tracking(ctx)
+    r2_sync_table(ctx)
+    r3_id_plumbing(ctx)
+    r4_only_sync_talks_to_store(ctx)
